@@ -36,7 +36,9 @@ func main() {
 	case "scope":
 		runScope(w, *tier)
 	case "plan":
-		runPlan(w, *tier)
+		runPlan(w, *tier, false)
+	case "skel":
+		runPlan(w, *tier, true)
 	default:
 		fmt.Fprintln(os.Stderr, "unknown mode")
 		os.Exit(2)
